@@ -124,6 +124,9 @@ func stepClass(o optInt) string {
 	return "-"
 }
 
+// c11evalDesc evaluates the source of a descendant value (set by runC11 before any sequence is made).
+var c11evalDesc func(src string) object.PanObject
+
 type c11seq struct {
 	kind  string // arr | ascii | multi
 	n     int
@@ -166,6 +169,12 @@ func c11mkSeq(kind string, n int) *c11seq {
 		}
 		s.val = object.NewPanArr(els...)
 		s.src = "[" + strings.Join(parts, ", ") + "]"
+	case "strdesc", "arrdesc":
+		// descendants made with bear (with and without own props): indexing and slicing reach the sequence they inherit from
+		base := c11mkSeq(map[string]string{"strdesc": "multi", "arrdesc": "arr"}[kind], n)
+		s.runes, s.elems = base.runes, base.elems
+		s.src = base.src + []string{".bear", ".bear({tag: 1})"}[n%2]
+		s.val = c11evalDesc(s.src)
 	case "ascii":
 		s.runes = []rune("abcdefghij")[:n]
 		s.val = object.NewPanStr(string(s.runes))
@@ -200,7 +209,7 @@ func (s *c11seq) judgeSlice(o *interp.Obs, want []int64) (symptom, detail string
 		}
 		return "", ""
 	}
-	if s.kind == "arr" {
+	if s.kind == "arr" || s.kind == "arrdesc" {
 		arr, ok := o.Val.(*object.PanArr)
 		if !ok {
 			return "not-an-array", o.Outcome()
@@ -291,9 +300,16 @@ func runC11(w *fw.W) {
 			ip = interp.New()
 			tSlice = interp.MustTemplate("s[r]")
 			tIdx = interp.MustTemplate("s[i]")
+			c11evalDesc = func(src string) object.PanObject {
+				o := ip.Run(src, interp.Options{})
+				if !o.OK() {
+					panic("C11 harness: descendant does not evaluate: " + src + " → " + o.Outcome())
+				}
+				return o.Val
+			}
 		}
 	}
-	kinds := []string{"arr", "ascii", "multi", "arrnil"}
+	kinds := []string{"arr", "ascii", "multi", "arrnil", "strdesc", "arrdesc"}
 	for _, kind := range kinds {
 		for n := 0; n <= N; n++ {
 			take := w.Take()
@@ -331,7 +347,7 @@ func runC11(w *fw.W) {
 				}
 				inRange := i.v >= -int64(n) && i.v < int64(n)
 				if inRange {
-					if kind == "arr" {
+					if kind == "arr" || kind == "arrdesc" {
 						want = fmt.Sprint(seq.elems[pos])
 					} else if kind == "arrnil" {
 						want = fmt.Sprint(seq.elems[pos])
